@@ -2,5 +2,7 @@
    no Extract Constant / Extract Inductive of our own. *)
 Require Extraction.
 Require Import ExtrOcamlBasic.
+From Coq Require Import ZArith.
 From SWH.model Require Import Merkle.
-Extraction "extract/C10/model.ml" run step cached hashed.
+(* Z.of_N only so that the shared ocaml/conv.ml finds the type z *)
+Extraction "extract/C10/model.ml" run step cached hashed Z.of_N.
